@@ -12,58 +12,72 @@ theorem bol_spec (ctx : Ctx) (p : Nat) (st : St) :
     bolGen ctx p st =
       if p = 0 ∨ (ctx.multiLine = true ∧ ctx.input[p - 1]? = some 10 ∧ p < ctx.len)
       then Step.once p st else Step.nil st := by
-  sorry
+  unfold bolGen Ctx.nlAt
+  by_cases hp : p = 0
+  · simp [hp]
+  · simp [hp, and_assoc]
 
 /-- `$`: the end of the input, or (flag m) right before a newline -/
 theorem eol_spec (ctx : Ctx) (p : Nat) (st : St) :
     eolGen ctx p st =
       if p ≥ ctx.len ∨ (ctx.multiLine = true ∧ ctx.input[p]? = some 10)
       then Step.once p st else Step.nil st := by
-  sorry
+  unfold eolGen Ctx.nlAt
+  by_cases hm : ctx.multiLine = true <;> by_cases hp : p ≥ ctx.len <;> by_cases hz : ctx.len = 0 <;>
+    simp [hm, hp, hz] <;> omega
 
 /-- without m, `^` matches only at offset 0 -/
 theorem bol_no_m (ctx : Ctx) (hm : ctx.multiLine = false) (p : Nat) (hp : p ≠ 0) (st : St) :
     bolGen ctx p st = Step.nil st := by
-  sorry
+  rw [bol_spec]; simp [hm, hp]
 
 /-- with m, `^` does not match after a final newline -/
 theorem bol_not_after_final_newline (ctx : Ctx) (p : Nat) (hp : p ≠ 0) (hend : p = ctx.len) (st : St) :
     bolGen ctx p st = Step.nil st := by
-  sorry
+  rw [bol_spec, if_neg]; omega
 
 /-- without m, `$` matches only at the end -/
 theorem eol_no_m (ctx : Ctx) (hm : ctx.multiLine = false) (p : Nat) (hp : p < ctx.len) (st : St) :
     eolGen ctx p st = Step.nil st := by
-  sorry
+  rw [eol_spec, if_neg]; simp [hm]; omega
 
 /-- the compiler turns `.` into the class "everything but LF and CR", or "everything" with flag s,
     whatever the other flags are -/
 theorem dot_compiles (c : PC) (f : Nat) (s : PS) (h : c.at s.idx = 46) :
     parseTerminal c (f + 1) s =
       .ok (.cls (if c.fl.singleLine then allR else complR (addChars [10, 13] []))) { s with idx := s.idx + 1 } := by
-  sorry
+  rw [parseTerminal]; simp [h]
 
 /-- in the XPath dialect `^` / `$` compile to the anchors wherever a terminal may stand -/
 theorem bol_compiles (c : PC) (hx : c.fl.xsd = false) (f : Nat) (s : PS) (h : c.at s.idx = 94) :
     parseTerminal c (f + 1) s = .ok .bol { s with idx := s.idx + 1 } := by
-  sorry
+  rw [parseTerminal]; simp [h, hx]
 
 theorem eol_compiles (c : PC) (hx : c.fl.xsd = false) (f : Nat) (s : PS) (h : c.at s.idx = 36) :
     parseTerminal c (f + 1) s = .ok .eol { s with idx := s.idx + 1 } := by
-  sorry
+  rw [parseTerminal]; simp [h, hx]
 
 /-- a quantified anchor: `^*`, `^?`, `^{0,n}` require nothing; `^+`, `^{n,m}` (n ≥ 1) are the anchor -/
 theorem anchor_star (c : PC) (ret : Op) (ha : isAnchor ret = true) (s : PS) (hlt : s.idx < c.len)
     (hq : c.at s.idx = 42 ∨ c.at s.idx = 63)
     (hnr : ¬ (s.idx + 1 < c.len ∧ c.at (s.idx + 1) = 63)) :
     pieceQuant c ret s = .ok .nothing { s with idx := s.idx + 1 } := by
-  sorry
+  unfold pieceQuant
+  have h1 : ¬ (s.idx ≥ c.len) := by omega
+  have hr : (decide (s.idx + 1 < c.len) && c.at (s.idx + 1) == 63) = false := by
+    simpa using hnr
+  rcases hq with hq | hq <;> simp [h1, hq, ha, hr, mzs, ZLS_ANYWHERE]
 
 theorem anchor_plus (c : PC) (ret : Op) (ha : isAnchor ret = true) (s : PS) (hlt : s.idx < c.len)
     (hq : c.at s.idx = 43)
     (hnr : ¬ (s.idx + 1 < c.len ∧ c.at (s.idx + 1) = 63)) :
     pieceQuant c ret s = .ok ret { s with idx := s.idx + 1 } := by
-  sorry
+  unfold pieceQuant
+  have h1 : ¬ (s.idx ≥ c.len) := by omega
+  have hr : (decide (s.idx + 1 < c.len) && c.at (s.idx + 1) == 63) = false := by
+    simpa using hnr
+  cases ret <;> simp [isAnchor] at ha <;>
+    simp [h1, hq, hr, mzs, isAnchor, ZLS_ANYWHERE, ZLS_AT_START, ZLS_AT_END]
 
 example : bolGen { input := [97, 10, 98, 10], caseBlind := false, multiLine := true, hasBackrefs := false, maxParens := 1, lower := id } 2 {}
     = Step.once 2 {} := by rfl
